@@ -13,12 +13,13 @@ PROP = dict(
                 "responses) is linearizable in the order of the steps and its final shared state is the specification's after that order. Tied to the code by generated "
                 "concurrent programs (2-4 clients x 2-4 calls on one or two shared names, all nine call kinds, two callers with different rights, a sequential prefix and a "
                 "final sequential dump) run on real goroutines against a real db.DB and through the handlers registered by server.New, stamped with one atomic counter; the "
-                "kernel decides every recorded history against the sequential database model (Server/DB.v), including the final state served, the file and the write generation."),
+                "kernel decides every recorded history against the sequential database model (Server/DB.v), including the final state served, the file and the write generation. Histories contain calls whose save is REFUSED (state directory unreachable; each mutating kind) at the "
+                "quiescent points, specified as 'no change to store or generation' (C14_refused_save_changes_nothing), followed by concurrent reads of every kind."),
     level_note=("PARTIAL: the theorems are about the model and the checker; that the Go code has the one-mutex design and is free of data races is TESTED "
                 "(sampled schedules of the Go scheduler under -race, GOMAXPROCS 1-16, injected pauses), not proved. Trusted: Coq kernel+VM, the race detector, "
                 "sequentially consistent atomics for the stamp counter."),
     rule=("640 generated programs (thorough 5000): 2/3 direct db.DB, 1/3 through the HTTP mux; shapes random / all-puts / activate-vs-readers / delete-vs-put / "
-          "delete-version-vs-info; one case = one recorded history (<= 15 calls, <= 11 concurrent) with the final dump; non-trivial if a successful mutation overlaps in "
+          "delete-version-vs-info / rotate / poll-activate / refused-saves (refused mutations of every kind before each segment, then reads of every kind with every version; also mixed into a third of the other programs); one case = one recorded history (<= 15 calls, <= 11 concurrent) with the final dump; non-trivial if a successful mutation overlaps in "
           "real time with a call of another client; distinct by stamped history"),
     explain=("no order of the recorded calls that respects real time explains every response and the final state by the sequential model (or: the race detector / "
              "runtime reported a data race, a fatal concurrent map access or a deadlock while the program ran)"),
